@@ -25,21 +25,17 @@ def discCount : List Ev → Nat
   | .disconnected _ _ :: es => discCount es + 1
   | _ :: es => discCount es
 
+/-- number of read-zero notifications in a history -/
+def zeroCount : List Ev → Nat
+  | [] => 0
+  | .readZero _ :: es => zeroCount es + 1
+  | _ :: es => zeroCount es
+
 /-- send-complete notifications were all made with nothing outstanding -/
 def completeOk (h : List Ev) : Prop := ∀ n, Ev.sendComplete n ∈ h → n = 0
 
 /-- close notifications caused by EOF were all made with every byte of the peer presented before -/
 def closeOk (h : List Ev) : Prop :=
   (∀ u, Ev.readZero u ∈ h → u = 0) ∧ (∀ u, Ev.disconnected false u ∈ h → u = 0)
-
-/-- the receive threshold an operation installs is at most 1 (every read is presented at once) -/
-def Op.thrSmall : Op → Bool
-  | .setRcb thr _ => thr ≤ 1
-  | _ => true
-
-/-- the operation never leaves the receive callback unset (`discard` cannot happen) -/
-def Op.rcbSet : Op → Bool
-  | .setRcb _ none => false
-  | _ => true
 
 end Tbox.C06
